@@ -28,7 +28,10 @@ static FILE *o;
 
 struct ev_loop *ev_default_loop(unsigned f) { (void)f; return &the_loop; }
 void ev_loop_destroy(struct ev_loop *l) { (void)l; }
-void ev_loop_fork(struct ev_loop *l) { (void)l; }
+/* libev (4.33, timerfd): after ev_loop_fork() the next loop iteration re-creates the kernel state and reschedules all periodics
+ * "in case we missed something": every periodic's reschedule_cb is called with the current time, no callback follows */
+static int postfork;
+void ev_loop_fork(struct ev_loop *l) { (void)l; postfork = 1; }
 void ev_break(struct ev_loop *l, int h) { (void)l; (void)h; }
 int ev_run(struct ev_loop *l, int f) { (void)l; (void)f; return 0; }
 void ev_timer_start(struct ev_loop *l, ev_timer *w) { (void)l; w->active = 1; the_timer = w; }
@@ -74,6 +77,10 @@ void ev_child_stop(struct ev_loop *l, ev_child *w)
  * repeats, stopped) and its callback queued */
 static void hx_reify(void)
 {
+	if (postfork) {
+		postfork = 0;
+		for (size_t i = 0; i < npers; i++) if (!pers[i]->pending && pers[i]->reschedule_cb) pers[i]->at = pers[i]->reschedule_cb(pers[i], the_loop.now);
+	}
 	for (;;) {
 		ev_periodic *best = NULL;
 		for (size_t i = 0; i < npers; i++) if (pers[i]->at < the_loop.now && !pers[i]->pending && (!best || pers[i]->at < best->at)) best = pers[i];
